@@ -119,44 +119,29 @@ def modPool (ps : List Pool) (name : Bytes) (f : Pool → Pool) : Option (List P
     if p.name = name then some (f p :: rest)
     else (modPool rest name f).map (p :: ·)
 
-/-- `BuildStates::set`. -/
+def decRunning (p : Pool) : Pool := { p with running := p.running - 1 }
+def incRunning (p : Pool) : Pool := { p with running := p.running + 1 }
+
+/-- `BuildStates::set`: leave `prev` (pending / pool slot / UI count), enter `new` (ready queue /
+    pool slot / pending / UI count).  `Counts.add .unknown` is the identity, which is how the
+    source's `if prev == Unknown {..} else {..}` reads for the UI counts. -/
 def set (g : Graph) (s : S) (id : Nat) (new : St) : Res S :=
   let b := g.build id
   let prev := s.st id
-  let st := upd s.st id new
-  let skipUi := b.phony
-  -- leaving `prev`
-  let r1 : Res (Int × List Pool × Counts) :=
-    if prev = .unknown then .ok (s.pending + 1, s.pools, s.counts)
-    else
-      let pools? := if prev = .running then modPool s.pools b.pool (fun p => { p with running := p.running - 1 })
-                    else some s.pools
-      match pools? with
-      | none => .panic "called `Option::unwrap()` on a `None` value"
-      | some pools =>
-        .ok (s.pending, pools, if skipUi then s.counts else s.counts.add prev (-1))
-  match r1 with
-  | .ok (pending, pools, counts) =>
-    -- entering `new`
-    let r2 : Res (Int × List Pool × List Nat) :=
-      match new with
-      | .ready => .ok (pending, pools, s.ready ++ [id])
-      | .running =>
-        match modPool pools b.pool (fun p => { p with running := p.running + 1 }) with
-        | none => .panic "called `Option::unwrap()` on a `None` value"
-        | some pools' => .ok (pending, pools', s.ready)
-      | .done => .ok (pending - 1, pools, s.ready)
-      | .failed => .ok (pending - 1, pools, s.ready)
-      | _ => .ok (pending, pools, s.ready)
-    match r2 with
-    | .ok (pending', pools', ready') =>
-      let counts' := if skipUi then counts else counts.add new 1
-      .ok { s with st := st, counts := counts', pending := pending', ready := ready', pools := pools',
-                   trace := Ev.set id prev new (countsList counts') pending' :: s.trace }
-    | .panic m => .panic m
-    | _ => .panic "set"
-  | .panic m => .panic m
-  | _ => .panic "set"
+  match (if prev = .running then modPool s.pools b.pool decRunning else some s.pools) with
+  | none => .panic "called `Option::unwrap()` on a `None` value"
+  | some ps1 =>
+    match (if new = .running then modPool ps1 b.pool incRunning else some ps1) with
+    | none => .panic "called `Option::unwrap()` on a `None` value"
+    | some ps2 =>
+      let counts' := if b.phony then s.counts else (s.counts.add prev (-1)).add new 1
+      let pending' := s.pending + (if prev = .unknown then 1 else 0)
+                        - (if new = .done ∨ new = .failed then 1 else 0)
+      .ok { s with
+            st := upd s.st id new, counts := counts', pending := pending',
+            ready := if new = .ready then s.ready ++ [id] else s.ready,
+            pools := ps2,
+            trace := Ev.set id prev new (countsList counts') pending' :: s.trace }
 
 def cycleMessage (g : Graph) (stack : List Nat) (id : Nat) : String :=
   let names := (stack ++ [id]).map (fun f => stringOfBytes (g.fileName f))
